@@ -27,6 +27,7 @@ use crate::{
     rng::Rng,
     runner::{barrier, block_on_sim, shrink_vec, Cx, Res, Scenario, Tier, Violation},
     sut::{compare, dump, harness, Backend, Sut},
+    scen::docs::{gen_policy, PolicySpec},
     world::{content, gen_ent, hexbytes, world, Ent, GenCfg},
 };
 
@@ -58,6 +59,12 @@ pub enum Req {
     Drop { d: u8 },
     Flush,
     Shutdown,
+    SetPolicy { d: u8, p: PolicySpec },
+    GetPolicy { d: u8 },
+    RegisterPeer { d: u8, peer: u8 },
+    GetPeers { d: u8 },
+    /// a peer's head report naming one author at one timestamp
+    HasNews { d: u8, a: u8, ts: u64 },
 }
 
 #[derive(Serialize, Deserialize, Clone, Debug)]
@@ -84,6 +91,9 @@ pub struct ActorPlan {
     pub backend: Backend,
     pub docs: u8,
     pub steps: Vec<AStep>,
+    /// bit d: document d starts with a read-only capability (a later write import is an upgrade)
+    #[serde(default)]
+    pub read_only: u8,
 }
 
 #[derive(Clone, Default, Debug)]
@@ -91,7 +101,13 @@ struct MDoc {
     cap: Option<bool>,
     handles: usize,
     sync: bool,
+    /// acknowledged subscriptions since the document was opened (their receivers are drained
+    /// for the whole run and never dropped, so none of them is ever removed by a failed send)
+    subs: usize,
     doc: RefDoc,
+    policy: Option<PolicySpec>,
+    /// most recently registered first, at most five
+    peers: Vec<u8>,
 }
 
 fn noop_waker() -> Waker {
@@ -120,6 +136,8 @@ enum Reply {
     Secret(Result<bool, String>),
     Msg(Result<usize, String>),
     Store(Result<iroh_docs::store::Store, String>),
+    Policy(Result<Vec<u8>, String>),
+    Peers(Result<Option<Vec<[u8; 32]>>, String>),
 }
 
 type Fut = Pin<Box<dyn Future<Output = Reply>>>;
@@ -131,7 +149,9 @@ enum Expect {
     Bool(bool),
     Count(usize),
     Entry(Option<Ent>),
-    State { handles: usize, sync: bool },
+    State { handles: usize, sync: bool, subs: usize },
+    Policy(Vec<u8>),
+    Peers(Option<Vec<[u8; 32]>>),
     Secret(bool),
     AnyOk,
     Store,
@@ -175,11 +195,11 @@ impl Scenario for ActorScen {
             let key = |rng: &mut Rng| crate::world::gen_key(rng, 2);
             let roll = if self.cap_focus {
                 // imports, opens/closes, writes, deletions, secret export dominate
-                *rng.pick(&[0u64, 1, 2, 6, 12, 13, 14, 15, 18, 36, 36, 36, 36, 37, 37, 20, 33, 38, 39])
+                *rng.pick(&[0u64, 1, 2, 6, 12, 13, 14, 15, 18, 36, 36, 36, 36, 37, 37, 20, 32, 33, 33, 38, 39])
             } else if self.removal_focus {
                 *rng.pick(&[0u64, 1, 2, 3, 6, 7, 12, 13, 26, 33, 34, 36, 38, 38, 38, 38, 39])
             } else {
-                rng.below(40)
+                rng.below(46)
             };
             let req = match roll {
                 0..=5 => Req::Open { d, sync: rng.chance(1, 2), sub: rng.chance(1, 4) },
@@ -197,13 +217,18 @@ impl Scenario for ActorScen {
                 36 => Req::Import { d, write: rng.chance(1, 2) },
                 37 => Req::ExportSecret { d },
                 38 => if rng.chance(1, 3) || self.removal_focus { Req::Drop { d } } else { Req::Flush },
+                40 => Req::SetPolicy { d, p: gen_policy(rng) },
+                41 => Req::GetPolicy { d },
+                42 | 43 => Req::RegisterPeer { d, peer: rng.below(7) as u8 },
+                44 => Req::GetPeers { d },
+                45 => Req::HasNews { d, a: rng.below(3) as u8, ts: rng.range(0, 14) },
                 _ => if i > n / 2 && rng.chance(1, 3) { Req::Shutdown } else { Req::Flush },
             };
             if matches!(req, Req::Shutdown) {
                 if shut { continue; }
                 shut = true;
             }
-            let is_read = matches!(req, Req::GetExact { .. } | Req::GetState { .. });
+            let is_read = matches!(req, Req::GetExact { .. } | Req::GetState { .. } | Req::GetPolicy { .. } | Req::GetPeers { .. } | Req::HasNews { .. });
             if is_read && rng.chance(1, 5) {
                 steps.push(AStep::SendDropReply { client, req });
             } else {
@@ -219,7 +244,8 @@ impl Scenario for ActorScen {
             }
         }
         steps.push(AStep::Await);
-        ActorPlan { seed: rng.next_u64(), backend: if rng.chance(1, 2) { Backend::Mem } else { Backend::Disk }, docs, steps }
+        let read_only = if self.cap_focus || rng.chance(1, 3) { rng.below(4) as u8 } else { 0 };
+        ActorPlan { seed: rng.next_u64(), backend: if rng.chance(1, 2) { Backend::Mem } else { Backend::Disk }, docs, steps, read_only }
     }
 
     fn exec(&self, plan: &ActorPlan, cx: &mut Cx) -> Res {
@@ -249,7 +275,7 @@ impl Scenario for ActorScen {
     }
 
     fn rule(&self) -> String {
-        "A run is 6-60 requests from 1-3 clients over 1-2 documents (open ±sync ±subscribe, close, set-sync, insert, delete, remote insert, reconciliation, get-exact, get-many streams with capacity 1-4 consumed late, subscribe, get-state, import, export, drop, flush, shutdown), pipelined in plan-chosen batches; faults: reply receiver dropped before the answer, stream dropped half-way, virtual-time advances across the 500 ms flush timer, shutdown with requests queued behind it. Non-trivial: a fault fired or a gate (not open / sync off / read-only) was exercised.".into()
+        "A run is 6-60 requests from 1-3 clients over 1-2 documents (open ±sync ±subscribe, close, set-sync, insert, delete, remote insert, reconciliation, get-exact, get-many streams with capacity 1-4 consumed late, subscribe, get-state, import, export, drop, flush, set/get download policy, register/list useful peers, has-news, shutdown), pipelined in plan-chosen batches; faults: reply receiver dropped before the answer, stream dropped half-way, virtual-time advances across the 500 ms flush timer, shutdown with requests queued behind it. Non-trivial: a fault fired or a gate (not open / sync off / read-only) was exercised.".into()
     }
 }
 
@@ -307,6 +333,18 @@ fn submit(h: &SyncHandle, req: &Req, streams: &mut Vec<Stream>, idx: usize, expe
         Req::Drop { d } => Box::pin(async move { Reply::Unit(e2s(h.drop_replica(w.doc_id(d)).await)) }),
         Req::Flush => Box::pin(async move { Reply::Unit(e2s(h.flush_store().await)) }),
         Req::Shutdown => Box::pin(async move { Reply::Store(e2s(h.shutdown().await)) }),
+        Req::SetPolicy { d, p } => {
+            let real = p.real();
+            Box::pin(async move { Reply::Unit(e2s(h.set_download_policy(w.doc_id(d), real).await)) })
+        }
+        Req::GetPolicy { d } => Box::pin(async move { Reply::Policy(e2s(h.get_download_policy(w.doc_id(d)).await).map(|p| postcard::to_stdvec(&p).unwrap_or_default())) }),
+        Req::RegisterPeer { d, peer } => Box::pin(async move { Reply::Unit(e2s(h.register_useful_peer(w.doc_id(d), w.peers[peer as usize]).await)) }),
+        Req::GetPeers { d } => Box::pin(async move { Reply::Peers(e2s(h.get_sync_peers(w.doc_id(d)).await)) }),
+        Req::HasNews { d, a, ts } => {
+            let mut heads = iroh_docs::AuthorHeads::default();
+            heads.insert(w.author_id(a), ts);
+            Box::pin(async move { Reply::Bool(e2s(h.has_news_for_us(w.doc_id(d), heads).await).map(|n| n.is_some())) })
+        }
     };
     Some(fut)
 }
@@ -318,7 +356,7 @@ fn model_apply(m: &mut [MDoc], req: &Req, clock: u64, alive: &mut bool, stream_e
     }
     let open = |d: &MDoc| d.handles > 0;
     match req {
-        Req::Open { d, sync, .. } => {
+        Req::Open { d, sync, sub } => {
             let dm = &mut m[*d as usize];
             if dm.cap.is_none() {
                 cx.probe("open_missing_document");
@@ -326,6 +364,9 @@ fn model_apply(m: &mut [MDoc], req: &Req, clock: u64, alive: &mut bool, stream_e
             }
             dm.handles += 1;
             dm.sync = dm.sync || *sync;
+            if *sub {
+                dm.subs += 1;
+            }
             Expect::Ok
         }
         Req::Close { d } => {
@@ -337,6 +378,7 @@ fn model_apply(m: &mut [MDoc], req: &Req, clock: u64, alive: &mut bool, stream_e
             dm.handles -= 1;
             if dm.handles == 0 {
                 dm.sync = false;
+                dm.subs = 0;
                 Expect::Bool(true)
             } else {
                 Expect::Bool(false)
@@ -448,6 +490,7 @@ fn model_apply(m: &mut [MDoc], req: &Req, clock: u64, alive: &mut bool, stream_e
                 cx.probe("gate_not_open");
                 return Expect::Err;
             }
+            m[*d as usize].subs += 1;
             Expect::Ok
         }
         Req::GetState { d } => {
@@ -455,7 +498,7 @@ fn model_apply(m: &mut [MDoc], req: &Req, clock: u64, alive: &mut bool, stream_e
             if !open(dm) {
                 return Expect::Err;
             }
-            Expect::State { handles: dm.handles, sync: dm.sync }
+            Expect::State { handles: dm.handles, sync: dm.sync, subs: dm.subs }
         }
         Req::Import { d, write } => {
             let dm = &mut m[*d as usize];
@@ -494,6 +537,51 @@ fn model_apply(m: &mut [MDoc], req: &Req, clock: u64, alive: &mut bool, stream_e
             *alive = false;
             Expect::Store
         }
+        // the following go to the store without the document having to be open
+        Req::SetPolicy { d, p } => {
+            let dm = &mut m[*d as usize];
+            if dm.cap.is_none() {
+                cx.probe("policy_for_missing_document");
+                return Expect::Err;
+            }
+            dm.policy = Some(p.clone());
+            Expect::Ok
+        }
+        Req::GetPolicy { d } => {
+            let dm = &m[*d as usize];
+            Expect::Policy(postcard::to_stdvec(&dm.policy.clone().map(|p| p.real()).unwrap_or_default()).unwrap_or_default())
+        }
+        Req::RegisterPeer { d, peer } => {
+            let dm = &mut m[*d as usize];
+            if dm.cap.is_none() {
+                cx.probe("peer_for_missing_document");
+                return Expect::Err;
+            }
+            dm.peers.retain(|p| p != peer);
+            dm.peers.insert(0, *peer);
+            dm.peers.truncate(5);
+            Expect::Ok
+        }
+        Req::GetPeers { d } => {
+            let dm = &m[*d as usize];
+            if !open(dm) {
+                cx.probe("gate_not_open");
+                return Expect::Err;
+            }
+            let w = world();
+            Expect::Peers(if dm.peers.is_empty() { None } else { Some(dm.peers.iter().map(|p| w.peers[*p as usize]).collect()) })
+        }
+        Req::HasNews { d, a, ts } => {
+            let dm = &m[*d as usize];
+            if dm.cap.is_none() {
+                return Expect::Any;
+            }
+            let head = dm.doc.0.values().filter(|e| e.a == *a).map(|e| e.ts).max();
+            Expect::Bool(match head {
+                None => true,
+                Some(h) => *ts > h,
+            })
+        }
     }
 }
 
@@ -527,6 +615,8 @@ fn check_reply(idx: usize, req: &Req, expect: &Expect, reply: Reply) -> Res<Opti
         Reply::Secret(r) => r.is_ok(),
         Reply::Msg(r) => r.is_ok(),
         Reply::Store(r) => r.is_ok(),
+        Reply::Policy(r) => r.is_ok(),
+        Reply::Peers(r) => r.is_ok(),
     };
     match (expect, reply) {
         (Expect::Any, _) => Ok(None),
@@ -540,14 +630,16 @@ fn check_reply(idx: usize, req: &Req, expect: &Expect, reply: Reply) -> Res<Opti
         (Expect::Ok | Expect::AnyOk, r) => {
             if is_ok { Ok(None) } else { Err(bad(format!("failed ({r:?}) although all earlier requests make it valid").chars().take(400).collect())) }
         }
-        (Expect::Bool(b), Reply::Bool(Ok(g))) => if g == *b { Ok(None) } else { Err(bad(format!("close returned {g}, handle counting says {b}"))) },
+        (Expect::Bool(b), Reply::Bool(Ok(g))) => if g == *b { Ok(None) } else { Err(bad(format!("returned {g}, the earlier requests say {b}"))) },
+        (Expect::Policy(want), Reply::Policy(Ok(g))) => if g == *want { Ok(None) } else { Err(bad("returned a policy that is not the last one set (or the default)".to_string())) },
+        (Expect::Peers(want), Reply::Peers(Ok(g))) => if g == *want { Ok(None) } else { Err(bad(format!("returned peers {:?}, the registrations so far give {:?} (most recent first, first id byte shown)", g.map(|v| v.iter().map(|p| p[0]).collect::<Vec<_>>()), want.as_ref().map(|v| v.iter().map(|p| p[0]).collect::<Vec<_>>())))) },
         (Expect::Count(n), Reply::Count(Ok(g))) | (Expect::Count(n), Reply::Msg(Ok(g))) => if g == *n { Ok(None) } else { Err(bad(format!("returned {g}, expected {n}"))) },
         (Expect::Entry(e), Reply::Entry(Ok(g))) => {
             let want = e.as_ref().map(|e| e.signed());
             if g == want { Ok(None) } else { Err(bad(format!("returned {:?}, earlier requests give {:?}", g.map(|e| format!("{:?}", e.entry())), e.as_ref().map(|e| e.short())))) }
         }
-        (Expect::State { handles, sync }, Reply::State(Ok(s))) => {
-            if s.handles == *handles && s.sync == *sync { Ok(None) } else { Err(bad(format!("state handles={} sync={}, expected handles={handles} sync={sync}", s.handles, s.sync))) }
+        (Expect::State { handles, sync, subs }, Reply::State(Ok(s))) => {
+            if s.handles == *handles && s.sync == *sync && s.subscribers == *subs { Ok(None) } else { Err(bad(format!("state handles={} sync={} subscribers={}, expected handles={handles} sync={sync} subscribers={subs}", s.handles, s.sync, s.subscribers))) }
         }
         (Expect::Secret(_), Reply::Secret(Ok(true))) => Ok(None),
         (Expect::Store, Reply::Store(Ok(s))) => Ok(Some(s)),
@@ -574,6 +666,11 @@ fn req_name(r: &Req) -> &'static str {
         Req::Drop { .. } => "drop",
         Req::Flush => "flush",
         Req::Shutdown => "shutdown",
+        Req::SetPolicy { .. } => "set-policy",
+        Req::GetPolicy { .. } => "get-policy",
+        Req::RegisterPeer { .. } => "register-peer",
+        Req::GetPeers { .. } => "get-peers",
+        Req::HasNews { .. } => "has-news",
     }
 }
 
@@ -601,8 +698,10 @@ async fn run(plan: &ActorPlan, cx: &mut Cx, cap_focus: bool, removal_focus: bool
     let mut sut = Sut::new(plan.backend)?;
     let mut m: Vec<MDoc> = vec![MDoc::default(); crate::world::N_DOCS];
     for d in 0..plan.docs {
-        sut.store().import_namespace(Capability::Write(w.docs[d as usize].clone())).map_err(|e| harness(format!("{e:#}")))?;
-        m[d as usize].cap = Some(true);
+        let ro = (plan.read_only >> d) & 1 == 1;
+        let cap = if ro { Capability::Read(w.doc_id(d)) } else { Capability::Write(w.docs[d as usize].clone()) };
+        sut.store().import_namespace(cap).map_err(|e| harness(format!("{e:#}")))?;
+        m[d as usize].cap = Some(!ro);
     }
     for a in 0..2 {
         sut.store().import_author(w.authors[a].clone()).map_err(|e| harness(format!("{e:#}")))?;
